@@ -395,7 +395,7 @@ AppSendStart(k) ==
 (* http.response.body: more_body = TRUE writes a chunk; FALSE also runs _send_closed *)
 AppSendBody(k, final) ==
     /\ Running(k) /\ asgi[k] = "RESP"
-    /\ wire[k].chunks < 2
+    /\ (final \/ wire[k].chunks < 2)       \* (bounds the model only: a response has at most two chunks)
     /\ FailNote(our = "SEND_BODY")
     /\ LET live == our = "SEND_BODY"
            stl == live /\ cur \notin {0, k} IN
